@@ -95,16 +95,21 @@ def intr_wake_log(ex, args, name):
 
 def c10_writers(ex, S, T):
     out = []
-    if getattr(S, 'concrete', False):
-        return out      # wake events are not observable in the replay dump
-    if S.err is not None:
-        out.append(('failed-writer-wakes-nobody', not any(e[0] == 'wake-publish' for e in S.events)))
-        return out
+    concrete = getattr(S, 'concrete', False)
+    if concrete:
+        # the replay driver registers a publish awaiter per subscription before the operation and reports which were closed
+        woken = [replay.uuid_int(x) for x in (S.results[-1].get('woken') or [])]
+        if S.err is not None:
+            return [('failed-writer-wakes-nobody', not woken)]
+    else:
+        if S.err is not None:
+            out.append(('failed-writer-wakes-nobody', not any(e[0] == 'wake-publish' for e in S.events)))
+            return out
+        woken = [i for e in S.events if e[0] == 'wake-publish' for i in e[2]]
+        commits = [k for k, e in enumerate(S.events) if e[0] == 'commit']
+        wakes = [k for k, e in enumerate(S.events) if e[0] == 'wake-publish']
+        out.append(('wake-only-after-commit', all(commits and w > commits[0] for w in wakes)))
     tN = S.nows[-1]
-    woken = [i for e in S.events if e[0] == 'wake-publish' for i in e[2]]
-    commits = [k for k, e in enumerate(S.events) if e[0] == 'commit']
-    wakes = [k for k, e in enumerate(S.events) if e[0] == 'wake-publish']
-    out.append(('wake-only-after-commit', all(commits and w > commits[0] for w in wakes)))
     t = z3.Int('probe_t')
     for i, p in enumerate(S.pre['Delivery']):
         q = S.post['Delivery'][i]
